@@ -104,8 +104,13 @@ def run_shard(ctx):
     n = 250 if ctx.tier == "quick" else 2500
     maxops = 25 if ctx.tier == "quick" else 60
     for i in range(n):
-        case = hh.gen_history(rnd, rnd.randint(1, maxops))
-        case["observe_p"] = rnd.choice([1.0, 1.0, 0.5, 0.2])
+        if i % 25 == 24:
+            case = hh.gen_bulk_history(rnd, ctx.tier)
+            case["observe_p"] = 0.2
+            ctx.count("bulk_histories")
+        else:
+            case = hh.gen_history(rnd, rnd.randint(1, maxops), sp_p=0.04, bad_p=0.02)
+            case["observe_p"] = rnd.choice([1.0, 1.0, 0.5, 0.2])
         if i < 2:
             ctx.sample(case)
         run_case_guarded(mod, case, ctx)
